@@ -62,6 +62,11 @@ def prodk(lo, hi, body): return {"t": "prodk", "lo": enc.native(lo), "hi": enc.n
 def seqn(name, n): return {"t": name, "n": enc.native(n)}
 def seqnk(name, n, k): return {"t": name, "n": enc.native(n), "k": enc.native(k)}
 
+def hypterm(as_, bs, z, n): return {"t": "hypterm", "as": [val(a) for a in as_], "bs": [val(b) for b in bs], "z": val(z), "n": enc.native(n)}
+def ortho(fam, n, x, par=0): return {"t": "ortho", "fam": fam, "n": enc.native(n), "x": val(x), "par": val(par)}
+def polyint(cs, a, b): return {"t": "polyint", "c": [val(c) for c in cs], "a": [val(a), val(b)]}
+def polyder(cs, x, n): return {"t": "polyder", "c": [val(c) for c in cs], "x": val(x), "n": enc.native(n)}
+
 def le(a, b): return {"j": "le", "a": val(a), "b": val(b)}
 def lt(a, b): return {"j": "lt", "a": val(a), "b": val(b)}
 def eq(a, b): return {"j": "eq", "a": val(a), "b": val(b)}
